@@ -202,7 +202,7 @@ func variant(r *gen.Rng, c comps) (comps, string) {
 		}
 		return v, "instance"
 	case 5: // move digits between size and instance name ("…-1-2/x" vs "…-12-/x" lookalikes)
-		v.inst = refJoin(strconv.FormatInt(c.size%10, 10)+"-"+c.inst)
+		v.inst = refJoin(strconv.FormatInt(c.size%10, 10) + "-" + c.inst)
 		v.size = c.size / 10
 		if ok, _ := refValidInstance(v.inst); !ok {
 			v.inst = "0-"
